@@ -148,6 +148,10 @@ def run(scn):
             if joint != alone:
                 V('C12.4-context', 'operation %d: the text written for %s by compile(%s) differs from the text written for it by compile(%s) on fresh objects over the same sources with the same options' % (
                     i, m, ', '.join(base['requested']), m), opkind='compile', what='co-compiled', module=m)
+        for m, (got, ref) in sorted(r.get('permod', {}).items()):
+            if got != ref:
+                V('C12.4-context', 'operation %d: the text compile(%s) wrote for %s differs from the text produced by a symbol-table builder and a code generator made for that module alone' % (
+                    i, ', '.join(base['requested']), m), opkind='compile', what='per-module-fresh-objects', module=m)
         if op['op'] == 'repeat':
             first = recs[op['of']]
             if first['long'] != r['long']:
@@ -186,6 +190,7 @@ def run(scn):
            'fired': fired,
            'probes': {'histories': 1, 'child-runs': nchild, 'ops': len(recs), 'ops-after-a-failure': sum(1 for i in range(len(recs)) if any(recs[j]['failed'] for j in range(i))),
                       'modules-also-compiled-alone': sum(len(r.get('solo', {})) for r in recs),
+                      'modules-also-generated-by-per-module-objects': sum(len(r.get('permod', {})) for r in recs),
                       'fs-history': 1 if any(r['kind'] == 'fsc' for r in recs) else 0,
                       'fs-call-clean-after-faulted-call': sum(1 for i, r in enumerate(recs) if r['kind'] == 'fsc' and not r.get('faulted') and any(recs[j].get('faults_fired') for j in range(i))),
                       'fs-call-compared-with-pristine-tree': sum(1 for r in recs if r.get('pristine'))},
@@ -214,6 +219,8 @@ def gen_compile_op(rng, tier):
             op['options']['genTexts'] = True
         if rng.random() < 0.3:
             op['options']['keepLayout'] = True
+        if rng.random() < 0.5:
+            op['solo'] = True        # also produced module by module with objects made for each module alone
         return op
     n = rng.choice([1, 2, 2, 3])
     specs = mibgen.gen_modules(rng, n, cycles=rng.random() < 0.3, defects=rng.choice([0.0, 0.0, 0.3]), smiv1=0.2, identity=0.6, oiddefval=0.15, enumtc=rng.choice([0.0, 0.5, 0.8]))
@@ -296,6 +303,11 @@ def sweep(tier):
         for k in (0, 1, 2, 3):
             out.append({'ops': [{'op': 'parse', 'dialect': d1, 'file': k}, {'op': 'parse', 'dialect': d2, 'file': k}, {'op': 'parse', 'dialect': d2, 'file': 3}],
                         'child_hash_seeds': [], 'pair': True, 'table_cache': True})
+    # modules with tables, rows and columns: what compile() writes vs what objects made for each module alone produce
+    for cname, mname in (('full', 'FULL-MIB'), ('fullalt', 'FULL-MIB'), ('v1', 'OLD-MIB'), ('quirky', 'QUIRK-MIB')):
+        for texts_ in (False, True):
+            out.append({'ops': [{'op': 'compile', 'modules': {}, 'corpus': [cname], 'requested': [mname], 'codegen': 'json', 'options': {'genTexts': True} if texts_ else {}, 'solo': True}],
+                        'child_hash_seeds': [], 'pair': True})
     # joint call vs each module on its own: a module that refines an enumerated type, users of that type in other modules
     for req in (['BBB-MIB', 'AAA-MIB'], ['AAA-MIB', 'BBB-MIB'], ['CCC-MIB', 'BBB-MIB', 'AAA-MIB']):
         specs = {'AAA-MIB': _fixed_spec('AAA-MIB', enumtc=True), 'BBB-MIB': _fixed_spec('BBB-MIB', arc=10, imports=['AAA-MIB'], enumuse='AAA-MIB'),
